@@ -155,6 +155,9 @@ class SymReal(Proxy):
         from . import ext
         return ext.SymFloat(self.t)
 
+    def __vf_pct_d__(self):
+        return SymStr(z3.Function("num_str_d", z3.RealSort(), z3.StringSort())(self.t))
+
     def __vf_format__(self, spec=""):
         if spec == "":
             return self.__vf_str__()
